@@ -779,14 +779,25 @@ func (c *LinkLayerDiscovery) SerializeTo(b gopacket.SerializeBuffer, opts gopack
 	binary.BigEndian.PutUint16(vb[chassIDLen+portIDLen:], ttlIDLen)
 	binary.BigEndian.PutUint16(vb[chassIDLen+portIDLen+2:], c.TTL)
 
-	for _, v := range c.Values {
+	for i := range c.Values {
+		v := &c.Values[i]
+		length := int(v.Length)
+		if opts.FixLengths {
+			length = len(v.Value)
+		}
+		if length > 511 {
+			return fmt.Errorf("LLDP TLV type %d length %d does not fit the 9 bit length field", v.Type, length)
+		}
+		v.Length = uint16(length)
 		vb, err := b.AppendBytes(int(v.Length) + 2) // +2 for TLV type and length; 1 byte for subtype is included in v.Value
 		if err != nil {
 			return err
 		}
 		idLen := ((uint16(v.Type) << 9) | v.Length)
 		binary.BigEndian.PutUint16(vb[0:2], idLen)
-		copy(vb[2:], v.Value)
+		// v.Length decides the size of the TLV, a shorter value is padded with zeros.
+		n := copy(vb[2:], v.Value)
+		clear(vb[2+n:])
 	}
 
 	vb, err = b.AppendBytes(2) // End Tlv, 2 bytes
